@@ -17,6 +17,8 @@ MANIFEST = dict(
                   kind_free_text="differential: real SymbolTable vs extracted Coq model on operation sequences")],
 )
 
+MANIFEST["text"] += " Fourth session: look-ups under lock contention (engine symtabc: every query while other threads hold the enclosing scopes' mutexes) must give the sequential model's answers."
+
 ASSUMPTIONS = [
     "names are ASCII (identifiers are [A-Za-z0-9_] by construction of the lexer); str::to_uppercase is modelled as ASCII upper-casing",
     "insert_symbol_info is called with id == info.id (as every caller in /repo does)",
